@@ -117,6 +117,14 @@ def run(ctx):
                     ctx.check(any(strip_site(r[3][0][1]) == strip_site(f.origin_call(b, t)) for b, t in f.calls() if t.get("rpath") in read_names), "R02.2",
                               "%s|yields-what-it-read" % f.name, "the iterator yields the value it just read", f.where())
 
+    # ---- R02.6 a deleted value is never returned: the hide-before-queueing rules of C04 -----------------
+    import c04
+    sub = type(ctx)(ctx.prop, ctx.facts, ctx.tier, ctx.config)
+    c04.run(sub)
+    for o in sub.obligations:
+        if o["rule"] in ("R04.1", "R04.2"):
+            ctx._add(o["status"], "R02.6", o["key"].split("|", 1)[1], o["desc"], o["where"], o["detail"])
+
     # ---- R02.4 no mutable leak -------------------------------------------------------------------------
     leaks = [n for n, f in F.fns.items() if f.rec.get("reachable") and ("RefMut<" in f.rec.get("ret", "") or "&mut " in f.rec.get("ret", "") and L.sv.split("::")[-1] in f.rec.get("ret", ""))]
     ctx.check(not leaks, "R02.4", "no-public-mutable-access", "no public function returns a mutable reference or RefMut into the store", detail=str(leaks))
